@@ -135,6 +135,17 @@ class Ctx:
     def fn(self, fid, rule="anchor"):
         f = self.facts.fns.get(fid)
         if f is None:
+            # the function may have moved to another module / impl block: accept a *unique* function of the same name whose
+            # enclosing type (last path segment before the name) is the same
+            parts = fid.split("::")
+            name = parts[-1]
+            owner = parts[-2] if len(parts) > 1 else ""
+            cands = [g for k, g in self.facts.fns.items() if g.kind != "Closure" and k.split("::")[-1] == name and
+                     (k.split("::")[-2] if "::" in k else "") == owner]
+            if len(cands) == 1:
+                self.note("anchor `%s` resolved to `%s` (moved)" % (fid, cands[0].id))
+                return cands[0]
+        if f is None:
             self.violation(rule, "anchor-missing:" + fid,
                            "anchored function `%s` not found in the analysed crate (renamed or removed): "
                            "the mechanism cannot be located, failing closed" % fid, where=fid)
